@@ -175,7 +175,14 @@ def visitState (r : Run) (l : Loc) : Run :=
       if is.line ≠ l.line then visitFresh { r with d := { r.d with is := none } } l else r
     | .kill =>
       if is.line ≠ l.line then { r with d := { r.d with is := none }, killed := true } else r
-    | .stepOut => r
+    | .stepOut =>
+      -- stepping over / out of a call: only an active break point on a NEW line stops the thread;
+      -- `is.node` follows the thread so that "new line" means "other than the line just executed"
+      if is.line ≠ l.line then
+        if bpActive r.d.bps l then
+          park { r with d := { r.d with is := some { is with line := l.line, running := false } } } l
+        else { r with d := { r.d with is := some { is with line := l.line } } }
+      else r
     | _ => -- Stop, StepIn, StepOver
       if is.line ≠ l.line ∨ is.cmd = Cmd.stop then
         park { r with d := { r.d with is := some { is with line := l.line, running := false } } } l
